@@ -152,7 +152,10 @@ func (rt *recordingRT) count() int {
 var (
 	c07HdrNames = []string{"X-Event", "x-event", "X-EVENT", "Content-Type", "X-Long", "Authorization", "authorization", "AUTHORIZATION",
 		"Proxy-Authorization", "proxy-authorization", "Cookie", "COOKIE", "X-Tab", "X-Utf8", "User-Agent", "X-Empty", "Cookie2", "X-Authorization", "Traceparent", "tracestate"}
-	c07HdrVals = []string{"push", "a,b", "a, b", "", "tab\there", "héllo wörld ✓", "Bearer secret", "k=v; k2=v2", strings.Repeat("v", 300), "  padded  ", "\"quoted\"", "a;b=c", "00-4bf92f3577b34da6a3ce929d0e0e4736-00f067aa0ba902b7-01"}
+	c07HdrVals = []string{"push", "a,b", "a, b", "", "tab\there", "héllo wörld ✓", "Bearer secret", "k=v; k2=v2", strings.Repeat("v", 300), "  padded  ", "\"quoted\"", "a;b=c", "00-4bf92f3577b34da6a3ce929d0e0e4736-00f067aa0ba902b7-01",
+		// bytes that a serialisation of the header map has to escape (seed C07-14: backslash forgotten by a
+		// hand-written JSON fast path of the SQLite store)
+		"C:\\temp\\new\\report.json", "a\\", "^\\d+$", "\\u0041\\n", "<b>&amp;</b>", "{\"k\":\"v\"}", "%5C%22", "'single'", "a\\\"b"}
 )
 
 func genBody(t *rapid.T, maxBody int) []byte {
